@@ -8,6 +8,10 @@ One harness (harness/fixed_string.cpp, compiled once per capacity and linked), o
     model only:       dom=0|1   (arguments inside C11's documented domain, CelmaVerif.FixedString.inDomain)
     harness only:     a leading `!! guard ...` / `!! wf ...` when the C10 oracle fails on the implementation
 
+Input lines: `new <L> [<S>]` (capacity of s/t, capacity of u; default 9), then one operation per line.  Source tokens
+`s:`/`c:` are hex, or segments `<hex>+<hex pattern>x<count>` (pattern repeated cyclically to <count> bytes) so that
+arguments beyond the width of the length type (256, 65536, ... characters) stay short; see width_cases().
+
 judge():  tie        impl(r,len,buf,sl,all,t.*) == model(...)
           spec       impl(e.*) == model(e.*)            (validates Model/StdString against libstdc++)
           C10 oracle `!!` lines
@@ -26,7 +30,11 @@ from vlib import Case, Problem
 COMPONENT = "fixedstring"
 DRIVER = "model-fixedstring"
 CAPS = [1, 2, 3, 4, 5, 7, 8, 15, 16, 254, 255, 256, 257, 65534, 65535, 65536]
-SU = 9          # capacity of the `u` source object (template< size_t S> overloads)
+SU = 9          # capacity of the `u` source object (template< size_t S> overloads) after `new <L>`
+# `new <L> <S>`: the same with a `u` of capacity S, so that arguments of type FixedString<S> can be longer than the
+# length type of `s` can count (harness parts 16..18, see the MAKE2 lines at the end of harness/fixed_string.cpp)
+CAPS_U = [(15, 300), (255, 600), (256, 70000)]
+NPARTS = len(CAPS) + len(CAPS_U)
 
 _TRUSTED = [
     "hand-written model CelmaVerif/Model/FixedString.lean of fixed_string.hpp and the two iterator headers, tied by the "
@@ -61,7 +69,7 @@ PROPERTIES = {
     },
 }
 
-RULE = ("cases are independent histories on three fresh objects (s: capacity L, t: capacity L, u: capacity 9); one "
+RULE = ("cases are independent histories on three fresh objects (s: capacity L, t: capacity L, u: capacity 9, or the capacity named by `new L S`); one "
         "evaluation = one operation line run on the real class, on a real std::string twin, on the Lean model and on "
         "Model/StdString; distinct_nontrivial = distinct (operation, capacity class, result class, length class before, "
         "length class after, in-domain flag) tuples")
@@ -76,7 +84,7 @@ def build_harness(work, prop):
     src = os.path.join(vlib.VERIF, "harness", "fixed_string.cpp")
     base = ["g++", "-std=c++17", "-O1", "-g1", "-w", "-D" + vlib.GUARD, "-I" + os.path.join(vlib.REPO, "src"),
             "-I" + os.path.join(vlib.VERIF, "harness"), "-pthread"] + vlib.SAN_FLAGS["asan"]
-    objs = [os.path.join(work, "fs_part%d.o" % k) for k in range(len(CAPS))]
+    objs = [os.path.join(work, "fs_part%d.o" % k) for k in range(NPARTS)]
 
     def cc(k):
         p = subprocess.run(base + ["-DFS_PART=%d" % k, "-c", src, "-o", objs[k]], stdout=subprocess.PIPE,
@@ -85,7 +93,7 @@ def build_harness(work, prop):
 
     logs = []
     with cf.ThreadPoolExecutor(vlib.NCPU) as ex:
-        for rc, out in ex.map(cc, range(len(CAPS))):
+        for rc, out in ex.map(cc, range(NPARTS)):
             if rc != 0:
                 logs.append(out[-4000:])
     if logs:
@@ -253,7 +261,10 @@ def content(rng, L, n=None, hostile=False):
 POS_POOL = ["0", "0", "1", "1", "2", "3", "@len", "@len", "@len-1", "@len-1", "@len-2", "@len+1", "@cap", "@cap-1", "@cap+1",
             "@rem", "@rem+1", "@rem-1", "npos", "npos", "npos-1"]
 HUGE = ["4294967295", "4294967296", "9223372036854775807", "9223372036854775808", "18446744073709551614",
-        "18446744073709551360", "npos-255", "npos-65535", "65536", "65535", "256", "255"]
+        "18446744073709551360", "npos-255", "npos-65535", "65536", "65535", "256", "255",
+        # the same value modulo 2^8 / 2^16 as a small in-range one (a clamp computed in the narrow length type)
+        "257", "511", "512", "65537", "@len+255", "@len+256", "@len+65536", "@rem+256", "@rem+65536", "@cap+256", "npos-254",
+        "npos-256", "npos-65536"]
 
 
 def pos(rng, L, hostile=True):
@@ -264,7 +275,7 @@ def pos(rng, L, hostile=True):
         return str(rng.randint(0, min(L + 2, 20)))
     if x < 0.92:
         return str(rng.randint(0, L + 2))
-    if hostile:
+    if hostile or rng.random() < 0.5:
         return rng.choice(HUGE)
     return str(rng.randint(0, 3))
 
@@ -311,8 +322,8 @@ def gen_op(rng, L, hostile, noscan=False):
 
 def gen_op1(rng, L, hostile):
     P = lambda: pos(rng, L, hostile)
-    S = lambda: "s:" + hx(content(rng, L, None, hostile))
-    Cs = lambda: "c:" + hx(content(rng, L, None, hostile))
+    S = lambda: "s:" + (long_src(rng, L) if rng.random() < 0.04 else hx(content(rng, L, None, hostile)))
+    Cs = lambda: "c:" + (long_src(rng, L) if rng.random() < 0.04 else hx(content(rng, L, None, hostile)))
     CH = lambda: ch(rng, hostile)
     I = lambda: itpos(rng, L)
     F = lambda: fsrc(rng)
@@ -421,6 +432,15 @@ def gen_op1(rng, L, hostile):
         lambda: "copy %s %s" % (copycount(rng, L), P()), lambda: "copy_c %s" % copycount(rng, L),
         lambda: "eq %s" % F(), lambda: "ne %s" % F(),
     ])()
+
+
+def long_src(rng, L):
+    """an argument longer than the length type of a small capacity can count, in the compact notation
+    `<hex head>+<hex pattern>x<count>` (random histories; the systematic ones are in width_cases)"""
+    W = 256 if L <= 255 or rng.random() < 0.5 else 65536
+    m = rng.choice([W - 1, W, W + 1, W + rng.randint(2, 12), W + max(1, L - 1), W + L, 2 * W - 1, 2 * W, 2 * W + 1])
+    head = rnd_bytes(rng, rng.randint(0, 6), b"ab")
+    return "+".join(x for x in [hx(head) if head else "", "%sx%d" % (hx(rnd_bytes(rng, rng.choice([1, 2, 5, 7]), b"abxy")), m - len(head))] if x)
 
 
 def copycount(rng, L):
@@ -639,6 +659,304 @@ def _with_sources(body, k):
     return [x for x in (t, u) if x]
 
 
+
+# ---- arguments around the integer-width boundaries of the length type ------------------------------------
+#
+# LengthType<L> is uint8_t up to capacity 255, uint16_t up to 65535.  A clamp such as `min( mLength, len)` written in
+# that type (or a `static_cast< size_type>( count)` before a comparison) is right for every argument shorter than
+# 2^w and wrong from there on, so every operation with a source or count argument is run with argument lengths
+# W-2 .. W+1, W+k (k below the current length / below the free room), 2W-1, 2W, 2W+1 (W = 256 for capacities <= 255,
+# 65536 for 256..65535) whose content makes the result depend on the characters on both sides of position
+# (len mod W), and with counts/positions at the same values and just below SIZE_MAX.
+# Long arguments are written `s:<hex>+<hex pattern>x<count>` (decodeSrc in the harness, srcDecode in the driver).
+
+# (capacity, capacity of u, modulus of the length type, model fast enough for index-by-index scans)
+WIDTH_TARGETS = [(7, 9, 256, True), (15, 300, 256, True), (254, 9, 256, True), (255, 600, 256, True),
+                 (256, 70000, 65536, True), (257, 9, 65536, True), (65535, 9, 65536, False)]
+
+
+def cyc(pat, n, phase=0):
+    return bytes(pat[(phase + i) % len(pat)] for i in range(n))
+
+
+class Src:
+    """an argument as segments (bytes, None) = literal, (pattern, n) = pattern repeated cyclically to n bytes"""
+
+    def __init__(self, segs=()):
+        self.segs = [(bytes(b), n) for b, n in segs if b and (n is None or n > 0)]
+
+    def __len__(self):
+        return sum(len(b) if n is None else n for b, n in self.segs)
+
+    def __add__(self, other):
+        return Src(self.segs + other.segs)
+
+    def bytes(self):
+        return b"".join(b if n is None else cyc(b, n) for b, n in self.segs)
+
+    def tok(self):
+        return "+".join(hx(b) if n is None else "%sx%d" % (hx(b), n) for b, n in self.segs) or "-"
+
+    def slice(self, i, j):
+        out, at = [], 0
+        for b, n in self.segs:
+            ln = len(b) if n is None else n
+            a, e = max(i, at), min(j, at + ln)
+            if a < e:
+                if n is None:
+                    out.append((b[a - at:e - at], None))
+                else:
+                    ph = (a - at) % len(b)
+                    out.append((b[ph:] + b[:ph], e - a))
+            at += ln
+        return Src(out)
+
+
+def lit(b):
+    return Src([(b, None)])
+
+
+def width_content(rng, n):
+    """content over {b,c}: a short random head, then a cyclic pattern (so that 64 k contents stay short on the line)"""
+    head = rnd_bytes(rng, min(n, rng.randint(3, 12)), b"bc")
+    pat = rng.choice([b"bcbbc", b"cbbcbcc", b"bbc", b"cbc", b"bccbcbb"])
+    return Src([(head, None), (pat, n - len(head))])
+
+
+def width_lengths(rng, W, n, room, su=None):
+    """argument lengths around the modulus W of the length type"""
+    ks = {1, 2, max(1, n - 1), n, n + 1, rng.randint(1, max(1, n - 1)), rng.randint(1, max(1, n - 1))}
+    if room > 1:
+        ks |= {room - 1, room, rng.randint(1, room - 1)}
+    ms = {W - 2, W - 1, W, W + 1, 2 * W - 1, 2 * W, 2 * W + 1, 2 * W + rng.randint(1, max(1, n - 1))} | {W + k for k in ks}
+    if W == 256:
+        ms |= {65535, 65536, 65536 + rng.randint(1, max(1, n - 1))}
+    else:
+        ms |= {254, 255, 256, 257, 511, 512}
+    return sorted(m for m in ms if m >= 1 and (su is None or m <= su))
+
+
+def width_arg(rng, X, m, W, variant):
+    """argument of length m related to the content X so that the result depends on both sides of position m mod W"""
+    n, k = len(X), m % W
+    lo = min(n, m)
+    fill = bytes(rng.choice(b"abcd") for _ in range(7))
+    F = lambda cnt: Src([(fill, cnt)])
+    if variant in ("gt-after", "lt-after", "gt-before", "lt-before") and lo > 0:
+        if variant.endswith("after"):      # the first difference lies behind the prefix a narrowed length would look at
+            js = [j for j in (k, k + 1, (k + lo) // 2, lo - 1) if k <= j < lo] or [rng.randrange(lo)]
+        else:
+            js = [j for j in (0, k // 2, k - 1) if 0 <= j < min(k, lo)] or [rng.randrange(lo)]
+        j = rng.choice(js)
+        d = b"a" if variant.startswith("gt") else b"d"       # X is over {b,c}: 'a' makes the content the greater one
+        return X.slice(0, j) + lit(d) + F(m - j - 1)
+    if variant == "prefix":       # X (or its first m characters) is a prefix of the argument
+        return X.slice(0, lo) + F(m - lo)
+    if variant == "tail":         # the last k characters of X, then filler: ends_with / rfind under a narrowed length
+        kk = min(k, n, m) if k else min(n, m, 2)
+        return X.slice(n - kk, n) + F(m - kk)
+    if variant == "inner":        # k characters from the middle of X, then filler: find / contains
+        kk = max(1, min(k if k else 2, n - 1, m))
+        i = rng.randint(0, max(0, n - kk))
+        return X.slice(i, i + kk) + F(m - kk)
+    if variant == "late":         # a character set whose only members of X's alphabet sit right behind position k: a count
+        kk = min(k, max(0, m - 2))    # narrowed to k does not see them (find_*_of with a count; the model's inner loop is
+        return Src([(b"ad", kk)]) + lit(b"bc"[:min(2, m)]) + Src([(b"da", m - kk - 2)])    # quadratic, so not at the end)
+    # "distinct": position-dependent text for the mutators
+    head = rnd_bytes(rng, min(m, 24))
+    return lit(head) + Src([(bytes(rng.sample(list(b"ABCDEFGHJKLMNPQRSTUVWXYZ"), 11)), m - len(head))])
+
+
+WIDTH_NUMS = ["255", "256", "257", "258", "511", "512", "65535", "65536", "65537", "65538", "131071", "131072",
+              "4294967295", "4294967296", "4294967297", "9223372036854775808", "18446744069414584320",
+              "@len+255", "@len+256", "@len+257", "@len+65535", "@len+65536", "@len+65537", "@cap+256", "@cap+65536",
+              "@rem+255", "@rem+256", "@rem+65535", "@rem+65536",
+              "npos", "npos-1", "npos-254", "npos-255", "npos-256", "npos-65534", "npos-65535", "npos-65536"]
+
+# operations with counts/positions only.  {V}: the boundary value, {P}: a position inside the content, {c}: a small
+# count, {h}: a character, {S}/{C}: a short std::string / C string, {F}: t or u, {I} {J}: an iterator range of s
+WIDTH_NUM_OBS = [
+    "at {V}", "cat {V}", "it_deref {V}", "substr {P} {V}", "substr {V} {c}", "substr_p {V}", "copy {V} {P}", "copy {c} {V}",
+    "copy_c {V}", "cmp_ccs {P} {V} {S}", "cmp_ccs {V} {c} {S}", "cmp_ccp {P} {V} {C}", "cmp_ccf {P} {V} {F}",
+    "cmp_ccscc {P} {V} {S} 0 {c}", "cmp_ccscc {P} {c} {S} 0 {V}", "cmp_ccscc {P} {c} {S} {V} {c}",
+    "cmp_ccfcc {P} {V} {F} 1 {c}", "cmp_ccfcc {P} {c} {F} 0 {V}", "cmp_ccfcc {P} {c} {F} {V} {c}",
+    "cmp_ccpc {P} {V} {C} {c}", "cmp_ccpc {P} {c} {C} {V}",
+    "{fam}_c {h} {V}", "{fam}_s {S} {V}", "{fam}_pp {C} {V}", "{fam}_f t {V}", "{fam}_ppc {C} {V} 2",
+]
+WIDTH_NUM_MUT = [
+    "insert_icc {P} {V} {h}", "insert_icc {V} {c} {h}", "insert_itcc {I} {V} {h}", "erase {P} {V}", "erase {V} {c}",
+    "erase_i {V}", "append_cc {V} {h}", "rep_cccc {P} {c} {V} {h}", "rep_cccc {P} {V} {c} {h}", "rep_cccc {V} {c} {c} {h}",
+    "rep_itit_cc {I} {J} {V} {h}", "rep_ccs {P} {V} {S}", "rep_ccs {V} {c} {S}", "rep_ccp {P} {V} {C}", "rep_ccf {P} {V} {F}",
+    "rep_ccscc {P} {V} {S} 0 {c}", "rep_ccscc {P} {c} {S} 0 {V}", "rep_ccscc {P} {c} {S} {V} {c}", "rep_ccsc {P} {V} {S} 1",
+    "rep_ccsc {P} {c} {S} {V}", "rep_ccfcc {P} {V} {F} 0 {c}", "rep_ccfcc {P} {c} {F} 0 {V}", "rep_ccfcc {P} {c} {F} {V} {c}",
+    "rep_ccfc {P} {V} {F} 1", "rep_ccfc {P} {c} {F} {V}", "rep_ccpc {P} {V} {C} {c}", "rep_ccpc {P} {c} {C} {V}",
+    "insert_isic {P} {S} 0 {V}", "insert_isic {P} {S} {V} {c}", "insert_isic {V} {S} 0 {c}", "insert_ific {P} {F} 0 {V}",
+    "insert_ific {P} {F} {V} {c}", "insert_is {V} {S}", "insert_ip {V} {C}", "insert_if {V} {F}",
+    "append_spc {S} 0 {V}", "append_spc {S} 1 {V}", "append_spc {S} {V} {c}", "append_sp {S} {V}",
+    "append_fpc {F} 0 {V}", "append_fpc {F} {V} {c}", "append_fp {F} {V}", "append_pc {C} {V}",
+]
+
+# operations with a long source.  {A}: `s:`/`c:` + the argument (the prefix is chosen from the operation), {U}: u holds
+# the argument, {p2}: a position inside the argument, {n2}: a count around its length, {k2}: a count <= its length + 1
+WIDTH_SRC_MUT = [
+    "ctor_s {A}", "assign_s {A}", "set_s {A}", "append_s {A}", "add_s {A}", "ctor_p {A}", "assign_p {A}", "set_p {A}",
+    "append_p {A}", "add_p {A}", "sprintf {A}", "sprintf2 {A} 7", "insert_is {P} {A}", "insert_ip {P} {A}",
+    "insert_ipc {P} {A} {k2}", "insert_isic {P} {A} {p2} {n2}", "append_spc {A} {p2} {n2}", "append_sp {A} {p2}",
+    "append_pc {A} {n2}", "rep_ccs {P} {c} {A}", "rep_ccp {P} {c} {A}", "rep_ccpc {P} {c} {A} {n2}",
+    "rep_ccscc {P} {c} {A} {p2} {n2}", "rep_ccsc {P} {c} {A} {p2}", "rep_itit_sit {I} {J} {A} {ij}",
+    "rep_itit_pc {I} {J} {A} {k2}", "rep_itit_p {I} {J} {A}",
+    "ctor_f {U}", "assign_f {U}", "set_f {U}", "append_f {U}", "add_f {U}", "insert_if {P} {U}", "insert_ific {P} {U} {p2} {n2}",
+    "append_fpc {U} {p2} {n2}", "append_fp {U} {p2}", "rep_ccf {P} {c} {U}", "rep_ccfcc {P} {c} {U} {p2} {n2}",
+    "rep_ccfc {P} {c} {U} {p2}",
+]
+# (template, variants that make a narrowed length visible, every length in the quick tier as well)
+WIDTH_SRC_OBS = [
+    ("cmp_s {A}", ("gt-after", "lt-after", "gt-before", "prefix"), True),
+    ("cmp_p {A}", ("gt-after", "lt-after", "gt-before", "prefix"), True),
+    ("cmp_f {U}", ("gt-after", "lt-after", "gt-before", "prefix"), True),
+    ("cmp_ccs 0 npos {A}", ("gt-after", "lt-after", "prefix"), True),
+    ("cmp_ccp 0 npos {A}", ("gt-after", "lt-after", "prefix"), True),
+    ("cmp_ccf 0 npos {U}", ("gt-after", "lt-after", "prefix"), True),
+    ("cmp_ccs {P} {c} {A}", ("gt-after", "lt-after", "inner"), False),
+    ("cmp_ccscc {P} {n2} {A} {p2} {n2}", ("gt-after", "prefix", "distinct"), False),
+    ("cmp_ccscc 0 npos {A} 0 {n2}", ("gt-after", "lt-after", "prefix"), False),
+    ("cmp_ccfcc 0 npos {U} 0 {n2}", ("gt-after", "lt-after", "prefix"), False),
+    ("cmp_ccfcc {P} {n2} {U} {p2} {n2}", ("gt-after", "prefix", "distinct"), False),
+    ("cmp_ccpc 0 npos {A} {n2}", ("gt-after", "lt-after", "prefix"), False),
+    ("eq {U}", ("prefix", "gt-after"), False), ("ne {U}", ("prefix", "gt-after"), False),
+    ("sw_s {A}", ("prefix", "gt-after"), True), ("sw_p {A}", ("prefix", "gt-after"), True), ("sw_f {U}", ("prefix", "gt-after"), True),
+    ("ew_s {A}", ("tail",), True), ("ew_p {A}", ("tail",), True), ("ew_f {U}", ("tail",), True),
+    ("ct_s {A}", ("inner", "prefix", "tail"), True), ("ct_p {A}", ("inner", "prefix", "tail"), True),
+    ("ct_f {U}", ("inner", "prefix", "tail"), True),
+    ("{fam}_s {A} {fp}", ("inner", "prefix", "tail", "late"), False),
+    ("{fam}_s0 {A}", ("inner", "prefix", "tail", "late"), False),
+    ("{fam}_pp {A} {fp}", ("inner", "prefix", "tail", "late"), False),
+    ("{fam}_p0 {A}", ("inner", "prefix", "tail", "late"), False),
+    ("{fam}_ppc {A} {fp} {k2}", ("inner", "prefix", "tail", "late"), False),
+]
+C_STRING_OPS = ("ctor_p", "assign_p", "set_p", "append_p", "add_p", "sprintf", "insert_ip", "append_pc", "rep_ccp", "rep_itit_p",
+                "cmp_p", "cmp_ccp", "sw_p", "ew_p", "ct_p", "_pp", "_p0")
+
+
+def width_units(rng, L, su, W, scans, X, full):
+    """(set-up lines, operation line, changes s) for one content X of the capacity L"""
+    n = len(X)
+    room = L - n
+    units = []
+    P = lambda: rng.choice(["0", "0", "1", "@len", "@len-1", str(n // 2)])
+    c = lambda: rng.choice(["0", "1", "2", "3", "@len", "npos"])
+    h = lambda: rng.choice(["78", "79", "62"])
+    S = lambda: "s:" + hx(rng.choice([b"xyz", b"bc", b"x", b"bcbxy", b"cb"]))
+    C = lambda: "c:" + hx(rng.choice([b"xyz", b"bc", b"x", b"bcbxy", b"cb"]))
+    F = lambda: rng.choice(["t", "u"])
+
+    def itrange():
+        a = rng.choice(["0", "0", "1"]) if n > 1 else "0"
+        b = rng.choice(["end", "@len-1", str(int(a) + 1), str(int(a) + 2)])
+        return a, b
+
+    def ok(op):
+        return scans or not op.startswith(SCANNING)
+
+    # ---- counts and positions
+    for mut, templates in ((False, WIDTH_NUM_OBS), (True, WIDTH_NUM_MUT)):
+        for tpl in templates:
+            fams = FIND_FAMILIES if "{fam}" in tpl else [None]
+            vals = rng.sample(WIDTH_NUMS, (16 if len(fams) == 1 else 6) if full else (5 if len(fams) == 1 else 2))
+            for fam in fams:
+                for v in vals:
+                    i, j = itrange()
+                    op = tpl.format(V=v, P=P(), c=c(), h=h(), S=S(), C=C(), F=F(), I=i, J=j, fam=fam)
+                    if ok(op):
+                        units.append(([], op, mut))
+
+    # ---- long sources
+    def src_units(tpl, variants, every, mut):
+        ms_all = width_lengths(rng, W, n, room)
+        fams = FIND_FAMILIES if "{fam}" in tpl else [None]
+        for fam in fams:
+            use_u = "{U}" in tpl
+            ms = [m for m in ms_all if not use_u or m <= su]
+            if not ms:
+                continue
+            if not scans:
+                ms = [m for m in ms if m < 1000 or m in (W - 1, W, W + 1) or rng.random() < 0.3]
+            combos = [(m, v) for m in ms for v in variants]
+            if not every:
+                combos = rng.sample(combos, min(len(combos), (12 if fam is None else 4) if full else (3 if fam is None else 1)))
+            for m, v in combos:
+                if fam in ("ffo", "ffno", "flo", "flno") and "_ppc" in tpl and m > 1100:
+                    if m % W > 600:
+                        continue
+                    v = "late"       # memN walks the set index by index: both characters of X must be found early
+                A = width_arg(rng, X, m, W, v)
+                k = m % W
+                p2 = rng.choice([0, 0, 1, k, min(m, 255), min(m, 256), min(m, 257), m - 1, m, min(m, W), min(m, W + 1)])
+                n2 = rng.choice(["npos", str(m), str(m - 1), str(m - p2), "256", "257", "255", str(k), "@rem", "@rem+256", "@len",
+                                 "@len+256", "1", "65536", "65537"])
+                k2 = rng.choice([m, m, m + 1, m - 1, k, min(m, 256), min(m, 257), min(m, W), min(m, W + 1)])
+                a, b = sorted([rng.choice([0, 1, k, min(m, 256), min(m, W)]), rng.choice([k, min(m, 256), min(m, 257), m, m - 1, min(m, W)])])
+                if a == b:
+                    a, b = 0, m
+                i, j = itrange()
+                pre = []
+                if use_u:
+                    pre = ["uset s:" + A.tok()]
+                word = tpl.split(" ")[0].replace("{fam}", fam or "")
+                kind = "c:" if word.startswith(C_STRING_OPS) or word.endswith(C_STRING_OPS) or word in (
+                    "insert_ipc", "rep_ccpc", "rep_itit_pc", "cmp_ccpc") or word.endswith("_ppc") else "s:"
+                fp = rng.choice(["0", "0", "1", "npos", "@len-1", "@len"]) if fam in (None, "find", "ffo", "ffno") else rng.choice(
+                    ["npos", "npos", "@len-1", "@len-2", "0"])
+                op = tpl.format(A=kind + A.tok(), U="u", P=P(), c=c(), p2=p2, n2=n2, k2=k2, ij="%d %d" % (a, b), I=i, J=j,
+                                fam=fam, fp=fp)
+                if ok(op):
+                    units.append((pre, op, mut))
+
+    for tpl in WIDTH_SRC_MUT:
+        src_units(tpl, ("distinct", "prefix"), False, True)
+    for tpl, variants, every in WIDTH_SRC_OBS:
+        src_units(tpl, variants, every, False)
+    return units
+
+
+def width_cases(rng, full):
+    cases = []
+    for L, su, W, scans in WIDTH_TARGETS:
+        lens = [L, max(1, L - rng.randint(3, max(3, min(L - 1, 40))))]
+        if full:
+            lens.append(max(1, L // 2))
+        for xi, n in enumerate(lens):
+            X = width_content(rng, n)
+            units = width_units(rng, L, su, W, scans, X, full)
+            rng.shuffle(units)
+            if not scans:       # 64 k contents: every line costs ~10 ms in the list-based model
+                units = units[:len(units) // 2]
+            header = ["new %d" % L if su == SU else "new %d %d" % (L, su), "tset s:" + hx(rnd_bytes(rng, min(L, 5), b"bcx"))]
+            reset = "assign_s s:" + X.tok()
+            short_u = "uset s:" + hx(rnd_bytes(rng, min(su, 6), b"bcy"))
+            lines, count, dirty, ulong = None, 0, True, True
+            for pre, op, mut in units:
+                if lines is None or count >= 150:
+                    if lines:
+                        cases.append(Case("w%d.%d.%d" % (L, xi, len(cases)), lines))
+                    lines, count, dirty, ulong = list(header), 0, True, True
+                if pre:
+                    ulong = True
+                elif ulong and (" u" in op):      # the count/position templates want a short u again
+                    lines.append(short_u)
+                    ulong = False
+                lines += pre
+                if dirty:
+                    lines.append(reset)
+                    dirty = False
+                lines.append(op)
+                count += 1
+                dirty = mut
+            if lines:
+                cases.append(Case("w%d.%d.%d" % (L, xi, len(cases)), lines))
+    return cases
+
+
 def generate(prop, tier, seed, scale=1):
     rng = random.Random("%s-%s" % (prop, seed))
     n = (700 if tier == "quick" else 20000) * scale
@@ -648,6 +966,9 @@ def generate(prop, tier, seed, scale=1):
         hostile = (rng.random() < (0.6 if prop == "C10" else 0.25))
         cases.append(random_case(rng, "g%d" % i, hostile))
     yield "generated", cases
+    wrng = random.Random("%s-%s-width" % (prop, seed))
+    yield "width boundaries of the length type (argument lengths, counts and positions around 2^8 / 2^16 / 2^64)", \
+        width_cases(wrng, tier != "quick")
     if tier == "quick":
         yield "exhaustive L<=2 over {a,b}, args 0..L+2 u {npos}", exhaustive_cases(2, 0)
     else:
